@@ -3,6 +3,7 @@
 From Coq Require Import List Bool Arith ZArith NArith.
 Import ListNotations.
 From HV Require Export lib.PyDict lib.Harness model.BiMapM model.Graph spec.GraphS.
+From HV Require Import proofs.GraphInvP proofs.InsertP.
 
 Definition zhugr := hugr N N.
 Definition zgraph := agraph N N.
@@ -105,14 +106,32 @@ Definition ret_eqb (a b : @ret) : bool :=
 Record case := { c_u : universe; c_rootop : N; c_rootmeta : N; c_init : obs;
                  c_steps : list (zcmd * (ret * res * obs)) }.
 
-(* correspondence: the implementation's return value, outcome class and observation == the model's *)
+(* the property's guard, judged on the MODEL's state: the specification accepts the call on the abstraction of
+   the state (live node arguments, offsets >= -1, deletion of a non-root leaf, insertion under a live parent of a
+   HUGR itself built inside the guard -- its history re-annotated with the model's own return values).  This is
+   [guarded1] of proofs/InsertP.v as a boolean. *)
+Definition reannot (c : zcmd) : zcmd :=
+  match c with
+  | Basic _ => c
+  | Insert o m _ src p => Insert o m 0 (trace_at (init o m) src) p
+  end.
+Definition in_guard (h : zhugr) (c : zcmd) (rt' : ret) : bool :=
+  match s_step (abs h) (reannot c) rt' with OutOfScope => false | _ => true end.
+
+(* correspondence: the implementation's return value, outcome class and observation == the model's.
+   WHICH free index a new node gets (and which indices the copies of an insertion get) is not prescribed by the
+   property: the model takes the implementation's return value as the oracle of that choice ([step rt]) and follows
+   it when it is admissible (a free index); an inadmissible choice shows as a different return value.
+   A call outside the property's guard ends the comparison: its exception class and effect are unspecified. *)
 Fixpoint corr_steps (u : universe) (h : zhugr) (l : list (zcmd * (ret * res * obs))) : bool :=
   match l with
   | [] => true
   | (c, (rt, r, ob)) :: rest =>
-      let '(h', rt', r') := step h c in
-      res_eqb r r' && (match r with Ok => ret_eqb rt rt' | _ => true end) &&
-      obs_eqb ob (model_obs u h') && corr_steps u h' rest
+      let '(h', rt', r') := step rt h c in
+      if in_guard h c rt' then
+        res_eqb r r' && (match r with Ok => ret_eqb rt rt' | _ => true end) &&
+        obs_eqb ob (model_obs u h') && corr_steps u h' rest
+      else true
   end.
 Definition corr (c : case) : bool :=
   let h := init (c_rootop c) (c_rootmeta c) in
